@@ -102,6 +102,7 @@ type Explorer struct {
 	stop    bool
 	start   time.Time
 	tier    int
+	initial []int64 // decision prefix of the first path (nil = explore everything)
 }
 
 func NewExplorer(w *World, entry *ssa.Function, cfg Config) *Explorer {
@@ -115,7 +116,7 @@ func NewExplorer(w *World, entry *ssa.Function, cfg Config) *Explorer {
 
 func (ex *Explorer) Run() *Result {
 	ex.start = time.Now()
-	ex.work = [][]int64{nil}
+	ex.work = [][]int64{ex.initial}
 	var wg sync.WaitGroup
 	for i := 0; i < ex.cfg.Workers; i++ {
 		wg.Add(1)
